@@ -107,56 +107,21 @@ func (c *celValidator) ErrVariable() string {
 }
 
 func (c *celValidator) Imports() []string {
+	// The imports are read off the generated Go expression itself rather than guessed
+	// from the text of the CEL expression: a guess that misses (for instance
+	// `value in['a','b']`, written without a blank after "in") left the import to
+	// goimports, which resolves it from whatever Go files lie around the working
+	// directory. Surplus entries are pruned by goimports.
+	code := c.Validate()
 	imports := []string{}
 
-	// Add imports based on the CEL expression content
-	if c.needsStringsImport() {
-		imports = append(imports, "strings")
-	}
-
-	if strings.Contains(c.expression, "matches(") {
-		imports = append(imports, "regexp")
-	}
-
-	if c.needsStrconvImport() {
-		imports = append(imports, "strconv")
-	}
-
-	if c.needsFmtImport() {
-		imports = append(imports, "fmt")
-	}
-
-	if c.needsTimeImport() {
-		imports = append(imports, "time")
-	}
-
-	// Add slices import for optimized contains operations
-	if strings.Contains(c.expression, " in ") {
-		imports = append(imports, "slices")
+	for _, pkg := range []string{"strings", "regexp", "strconv", "fmt", "time", "slices"} {
+		if strings.Contains(code, pkg+".") {
+			imports = append(imports, pkg)
+		}
 	}
 
 	return imports
-}
-
-func (c *celValidator) needsStringsImport() bool {
-	return strings.Contains(c.expression, "contains(") ||
-		strings.Contains(c.expression, "startsWith(") ||
-		strings.Contains(c.expression, "endsWith(")
-}
-
-func (c *celValidator) needsStrconvImport() bool {
-	return strings.Contains(c.expression, "int(") ||
-		strings.Contains(c.expression, "double(")
-}
-
-func (c *celValidator) needsFmtImport() bool {
-	return strings.Contains(c.expression, "string(") ||
-		strings.Contains(c.expression, "double(")
-}
-
-func (c *celValidator) needsTimeImport() bool {
-	return strings.Contains(c.expression, "timestamp(") ||
-		strings.Contains(c.expression, "duration(")
 }
 
 // ValidateCEL creates a new celValidator for fields with CEL marker.
